@@ -1085,22 +1085,28 @@ Proof. intros H. unfold string_cb. pose proof (LI_wf _ _ _ H) as Hwf0.
     - subst w3 w2 w1 chunk. wsimpl. rewrite !upd_other by lia. apply upd_same.
     - intros b Hb. cbn [In] in Hb. subst w3 w2 w1 chunk. wsimpl. rewrite !upd_other by lia. reflexivity.
     - subst w3 w2 w1. wsimpl. lia. }
-  clearbody w3 chunk. clear Hc2 w2 R2 w1 R1 H Hwf0 w.
+  assert (Hck : exists dd, heap w3 chunk = Some (CItem 1 (NStr text (Some dd) d))).
+  { exists (next w). subst w3 chunk. wsimpl. apply upd_same. }
+  destruct Hck as [dd0 Hck]. clearbody w3 chunk. assert (Hck' : exists dd, heap w3 chunk = Some (CItem 1 (NStr text (Some dd) d))) by eauto.
+  clear Hck dd0. rename Hck' into Hck. clear Hc2 w2 R2 w1 R1 H Hwf0 w.
   destruct stk as [|[[rec top] sub] rest]; [apply happend_spec; exact P|].
   rename w3 into w. set (wl := w_log (AccR top) w).
+  assert (Hckl : exists dd, heap wl chunk = Some (CItem 1 (NStr text (Some dd) d))) by exact Hck.
   assert (Pl : PRE wl chunk ((rec, top, sub) :: rest)) by (apply (PRE_same w wl _ _ P); split; reflexivity).
   destruct (top_facts _ _ _ _ _ _ Pl) as (n & nit & Htop & Sh & Hit & Hne & Hwf & Hblk).
-  bstep (rd_item_spec top w 1 n Htop). fold wl. clearbody wl. clear P w. rename Pl into P. rename wl into w.
+  bstep (rd_item_spec top w 1 n Htop). fold wl. clearbody wl. clear Hck. clear P w. rename Pl into P. rename wl into w.
   destruct n as [neg iw v|fw bits|v|tx data bytes|t hdr arr cap chunks|indef data al elems|indef data al pairs|v child];
     cbn [shape] in Sh; try contradiction; cbn beta iota; try (apply happend_spec; exact P).
-  destruct (Bool.eqb t text); [|apply happend_spec; exact P].
+  destruct (Bool.eqb_spec t text) as [Ett|_]; [|apply happend_spec; exact P].
+  assert (Hk : chunk_ok t nit).
+  { destruct Hckl as [dd Hckl]. rewrite Hit in Hckl. injection Hckl as ->. subst t. unfold chunk_ok. destruct text; [exact I|eauto]. }
   destruct Sh as (Sa & Scap & Slen).
   destruct (Hblk hdr) as ([hsz Hh] & Hcnt); [apply in_or_app; right; left; reflexivity|].
   assert (Hah : arr <> Some hdr).
   { intros ->. cbn [dblocks ol app cnt] in Hcnt. rewrite N.eqb_refl in Hcnt. lia. }
   assert (Hb : block_inv w arr cap).
   { destruct arr as [ar|]; cbn [block_inv]; [|apply Sa; reflexivity]. apply (Hblk ar). left. reflexivity. }
-  destruct (add_chunk_spec refuse top chunk w 1 t hdr hsz arr cap chunks 1 nit Hwf Htop Hh Hb Hah Hit Hne Scap)
+  destruct (add_chunk_spec refuse top chunk w 1 t hdr hsz arr cap chunks 1 nit Hwf Htop Hh Hb Hah Hit Hk Hne Scap)
     as [Hroom Hfull].
   destruct (N.eq_dec (len chunks) cap) as [Heq|Hneq].
   - specialize (Hfull Heq). destruct (grow_req SZ_PTR cap) as [[c bytes]|].
@@ -1471,6 +1477,25 @@ Definition node_tree (T : tmap) (n : node) : option item :=
 
 Definition CONS (T : tmap) (w : world) : Prop :=
   forall x t, T x = Some t -> exists rc n, heap w x = Some (CItem rc n) /\ node_tree T n = Some t.
+
+Lemma node_tree_str T n (text : bool) b :
+  node_tree T n = Some (if text then IText b else IBytes b) -> exists d, n = NStr text (Some d) b.
+Proof.
+  destruct n as [neg iw v|fw bits|v|tx data bytes|tx hdr arr cap0 chunks|indef data al elems|indef data al pairs|v [c|]];
+    cbn [node_tree]; intros H.
+  - destruct neg; destruct text; discriminate.
+  - destruct text; discriminate.
+  - destruct text; discriminate.
+  - destruct data as [d|]; [|discriminate]. exists d. destruct tx; destruct text; inversion H; reflexivity.
+  - destruct chunks; [|destruct arr; [|discriminate]];
+      (destruct (seqo _); [|discriminate]); cbn [option_map] in H; destruct tx; destruct text; discriminate.
+  - destruct elems; [|destruct data; [|discriminate]];
+      (destruct (seqo _); [|discriminate]); cbn [option_map] in H; destruct text; discriminate.
+  - destruct pairs; [|destruct data; [|discriminate]];
+      (destruct (seqo _); [|discriminate]); cbn [option_map] in H; destruct text; discriminate.
+  - destruct (T c); [|discriminate]. cbn [option_map] in H. destruct text; discriminate.
+  - discriminate.
+Qed.
 
 (* the pairs of an open map against the accumulator and the pending key of the P frame *)
 Definition mrep (T : tmap) (pairs : list (addr * option addr)) (racc : list (item * item)) (key : option item) : Prop :=
@@ -2183,7 +2208,10 @@ Proof. intros H (T & C & F) Hk. unfold string_cb. pose proof ((A5 LI_wf) _ _ _ H
   { intros ->. cbn [dblocks ol app cnt] in Hcnt. rewrite N.eqb_refl in Hcnt. lia. }
   assert (Hb : block_inv w arr cap0).
   { destruct arr as [ar|]; cbn [block_inv]; [|apply Sa; reflexivity]. apply (Hblk ar). left. reflexivity. }
-  destruct (add_chunk_spec grant top chunk w 1 text hdr hsz arr cap0 chunks 1 nit Hwf Htop Hh Hb Hah Hit Hne Scap)
+  assert (Hkc : chunk_ok text nit).
+  { destruct (C chunk tch Ht) as (rcc & ncc & Ecc & Ncc). rewrite Hit in Ecc. injection Ecc as _ <-.
+    destruct (node_tree_str T nit text d Ncc) as (dd & ->). unfold chunk_ok. destruct text; [exact I|eauto]. }
+  destruct (add_chunk_spec grant top chunk w 1 text hdr hsz arr cap0 chunks 1 nit Hwf Htop Hh Hb Hah Hit Hkc Hne Scap)
     as [Hroom Hfull].
   assert (Fs' : seqo (map (chunk_of T text) (chunks ++ [chunk])) = Some (rev (d :: racc)))
     by (cbn [rev]; apply seqo_snoc; assumption).
@@ -2474,24 +2502,6 @@ Proof. induction l as [|a l IH]; intros r Hs Hf w1 Hq; cbn [map seqo mapM] in *.
     destruct (IH r0 eq_refl (fun x y' w' Hx => Hf x y' w' (or_intror Hx)) w2 Q2) as (w3 & E3 & Q3). bstep E3.
     exists w3. split; [reflexivity|exact Q3]. Qed.
 
-Lemma node_tree_str T n (text : bool) b :
-  node_tree T n = Some (if text then IText b else IBytes b) -> exists d, n = NStr text (Some d) b.
-Proof.
-  destruct n as [neg iw v|fw bits|v|tx data bytes|tx hdr arr cap0 chunks|indef data al elems|indef data al pairs|v [c|]];
-    cbn [node_tree]; intros H.
-  - destruct neg; destruct text; discriminate.
-  - destruct text; discriminate.
-  - destruct text; discriminate.
-  - destruct data as [d|]; [|discriminate]. exists d. destruct tx; destruct text; inversion H; reflexivity.
-  - destruct chunks; [|destruct arr; [|discriminate]];
-      (destruct (seqo _); [|discriminate]); cbn [option_map] in H; destruct tx; destruct text; discriminate.
-  - destruct elems; [|destruct data; [|discriminate]];
-      (destruct (seqo _); [|discriminate]); cbn [option_map] in H; destruct text; discriminate.
-  - destruct pairs; [|destruct data; [|discriminate]];
-      (destruct (seqo _); [|discriminate]); cbn [option_map] in H; destruct text; discriminate.
-  - destruct (T c); [|discriminate]. cbn [option_map] in H. destruct text; discriminate.
-  - discriminate.
-Qed.
 
 Lemma abs_tree T o od w : Inv o od [] w -> G w0 w -> CONS T w ->
   forall fuel a t w1, heap w1 = heap w -> T a = Some t -> N0 <= a -> (N.to_nat (next w - a) < fuel)%nat ->
@@ -2529,14 +2539,14 @@ Proof. intros I Gw C. pose proof (Inv_wf _ _ _ _ I) as Hwf.
   - (* chunked string *)
     destruct (Touch hdr wa ltac:(cbn [dblocks]; apply in_or_app; right; left; reflexivity) Qa) as (w2 & E2 & Q2). bstep E2.
     assert (Hch : forall r, seqo (map (chunk_of T tx) chunks) = Some r -> forall w', heap w' = heap w ->
-              exists w'', mapM chunk_bytes chunks w' = Ret r w'' /\ heap w'' = heap w).
-    { intros r Hs. apply (mapM_all chunk_bytes (chunk_of T tx) (fun w' => heap w' = heap w) chunks r Hs).
+              exists w'', mapM (chunk_bytes tx) chunks w' = Ret r w'' /\ heap w'' = heap w).
+    { intros r Hs. apply (mapM_all (chunk_bytes tx) (chunk_of T tx) (fun w' => heap w' = heap w) chunks r Hs).
       intros c b w' Hin Hc Hq. unfold chunk_of in Hc. destruct (T c) as [tc|] eqn:Tc; [|discriminate].
       assert (Etc : tc = if tx then IText b else IBytes b).
       { destruct tc; try discriminate; destruct tx; try discriminate; inversion Hc; reflexivity. }
       subst tc. destruct (C c _ Tc) as (rcc & nc & Ec & Ntc). destruct (node_tree_str T nc tx b Ntc) as [dc ->].
       unfold chunk_bytes. assert (Ec' : heap w' c = Some (CItem rcc (NStr tx (Some dc) b))) by (rewrite Hq; exact Ec).
-      bstep (rd_item_spec c w' _ _ Ec'). destruct (len b =? 0).
+      bstep (rd_item_spec c w' _ _ Ec'). rewrite Bool.eqb_reflx. destruct (len b =? 0).
       - rewrite bind_ret_l. eexists. split; [reflexivity|exact Hq].
       - pose proof (Inv_nil_pos _ _ _ _ _ _ I Ec) as Hrcc.
         destruct (Inv_dblock_live _ _ _ _ _ _ _ dc I Ec ltac:(lia) (or_introl eq_refl)) as ([sz Hs'] & _).
